@@ -245,6 +245,11 @@ template<class P> struct routes {
     static auto sh_make() { return make_virtual_shared<yw::B, P>(); }
     static auto sh_conv(const virtual_ptr<std::shared_ptr<yw::B>, P>& p) { return virtual_ptr<std::shared_ptr<yw::A>, P>(p); }
     static auto sh_convm(virtual_ptr<std::shared_ptr<yw::B>, P>&& p) { return virtual_ptr<std::shared_ptr<yw::A>, P>(std::move(p)); }
+    static auto sh_const(std::shared_ptr<const yw::A>& s) { return virtual_ptr<std::shared_ptr<const yw::A>, P>(s); }
+    static auto sh_const_exact(std::shared_ptr<const yw::B>& s) { return virtual_ptr<std::shared_ptr<const yw::B>, P>(s); }
+    static auto sh_const_fin(std::shared_ptr<const yw::B>& s) { return virtual_ptr<std::shared_ptr<const yw::B>, P>::final(s); }
+    static auto sh_const_make() { return make_virtual_shared<const yw::B, P>(); }
+    static auto const_fin(const yw::B& b) { return virtual_ptr<const yw::B, P>::final(b); }
     static auto sh_down(const virtual_ptr<std::shared_ptr<yw::A>, P>& p) { return p.template cast<virtual_ptr<std::shared_ptr<yw::B>, P>>(); }
     static yw::A* get(const virtual_ptr<yw::A, P>& p) { return p.get(); }
     static yw::A& deref(const virtual_ptr<yw::A, P>& p) { return *p; }
